@@ -7,23 +7,32 @@ Import ListNotations.
 
 Record pops (T : Type) := mkpops {
   pz : T; padd : T -> T -> T; psub : T -> T -> T; pmul : T -> T -> T; pdiv : T -> T -> T;
-  pabs : T -> T; psqrt : T -> T; pgtb : T -> T -> bool (* a > b *) }.
+  pabs : T -> T; psqrt : T -> T; pgtb : T -> T -> bool (* a > b *); pconj : T -> T }.
+(* the two recorded defects of the pinned loop, as flags: [f_absden] = the relative change is divided by |eig| (repaired)
+   instead of eig; [f_conjrq] = the Rayleigh quotient conjugates its left argument (repaired) *)
+Record pflags := mkpflags { f_absden : bool; f_conjrq : bool }.
+Definition pinned_flags := mkpflags false false.
+Definition fixed_flags := mkpflags true true.
+Arguments pconj {T}.
 Arguments pz {T}. Arguments padd {T}. Arguments psub {T}. Arguments pmul {T}. Arguments pdiv {T}.
 Arguments pabs {T}. Arguments psqrt {T}. Arguments pgtb {T}.
 
 Section Power.
-Context {T : Type} (o : pops T).
+Context {T : Type} (o : pops T) (fl : pflags).
 Definition pdot (u v : list T) : T := fold_left (fun acc p => padd o acc (pmul o (fst p) (snd p))) (combine u v) (pz o).
 Definition pmv (A : list (list T)) (x : list T) : list T := map (fun r => pdot r x) A.
-Definition pnorm (v : list T) : T := psqrt o (pdot v v).   (* real data: xnp.norm(p) *)
+Definition pdotc (u v : list T) : T := fold_left (fun acc p => padd o acc (pmul o (pconj o (fst p)) (snd p))) (combine u v) (pz o).
+Definition pnorm (v : list T) : T := psqrt o (pdotc v v).   (* xnp.norm(p) = sqrt(sum |p_i|^2) *)
+Definition prq (u v : list T) : T := if f_conjrq fl then pdotc u v else pdot u v.   (* eig = v @ p  |  conj(v) @ p *)
 Record pstate := mkps { pit : nat; pv : list T; pvprev : list T; peig : T; peigprev : T }.
 (* body: p = A @ v; eig, eigprev = v @ p, eig; return i+1, p / norm(p), v, eig, eigprev *)
 Definition pbody (A : list (list T)) (s : pstate) : pstate :=
   let p := pmv A (pv s) in
   let nrm := pnorm p in
-  mkps (S (pit s)) (map (fun x => pdiv o x nrm) p) (pv s) (pdot (pv s) p) (peig s).
-(* err = abs(eigprev - eig) / eig *)
-Definition perr (s : pstate) : T := pdiv o (pabs o (psub o (peigprev s) (peig s))) (peig s).
+  mkps (S (pit s)) (map (fun x => pdiv o x nrm) p) (pv s) (prq (pv s) p) (peig s).
+(* err = abs(eigprev - eig) / eig   |   abs(eigprev - eig) / abs(eig) *)
+Definition perr (s : pstate) : T :=
+  pdiv o (pabs o (psub o (peigprev s) (peig s))) (if f_absden fl then pabs o (peig s) else peig s).
 (* cond: (i < max_iter) & (err > tol); the fuel is max_iter - i *)
 Fixpoint ploop (A : list (list T)) (tol : T) (fuel : nat) (s : pstate) : pstate :=
   match fuel with
@@ -55,28 +64,31 @@ Context {R : Type} {RR : Ring R} {FF : Field R}.
 Add Ring Rr : Rth.
 Add Field Rf : Fth.
 Open Scope R_scope.
-Variables (fabs fsqrt : R -> R) (fgtb : R -> R -> bool).   (* oracles: no property of them is needed *)
-Definition fo : pops R := mkpops R r0 radd rsub rmul rdiv fabs fsqrt fgtb.
-Lemma pdot_scale_gen c (u v : list R) a :
-  fold_left (fun acc p => acc + fst p * snd p) (combine u (map (fun x => c * x) v)) (c * a)
-  = c * fold_left (fun acc p => acc + fst p * snd p) (combine u v) a.
+Variables (fabs fsqrt : R -> R) (fgtb : R -> R -> bool) (fconj : R -> R).   (* oracles: no property of them is needed *)
+Variable fl : pflags.
+Definition fo : pops R := mkpops R r0 radd rsub rmul rdiv fabs fsqrt fgtb fconj.
+Lemma pdot_scale_gen (h : R -> R) c (u v : list R) a :
+  fold_left (fun acc p => acc + h (fst p) * snd p) (combine u (map (fun x => c * x) v)) (c * a)
+  = c * fold_left (fun acc p => acc + h (fst p) * snd p) (combine u v) a.
 Proof. revert v a. induction u as [|x u IH]; intros [|y v] a; cbn [combine map fold_left]; try reflexivity.
   cbn [fst snd]. rewrite <- IH. f_equal. ring. Qed.
-Lemma pdot_scale c (u v : list R) : pdot fo u (map (fun x => c * x) v) = c * pdot fo u v.
-Proof. unfold pdot. cbn [fo pz padd pmul]. rewrite <- pdot_scale_gen. f_equal. ring. Qed.
+Lemma prq_scale c (u v : list R) : prq fo fl u (map (fun x => c * x) v) = c * prq fo fl u v.
+Proof. unfold prq, pdot, pdotc. cbn [fo pz padd pmul pconj]. destruct (f_conjrq fl).
+  - rewrite <- (pdot_scale_gen fconj). f_equal. ring.
+  - rewrite <- (pdot_scale_gen (fun x => x)). f_equal. ring. Qed.
 Theorem power_fixed_point (A : list (list R)) (v vp : list R) (i : nat) (e ep : R) :
   let s := mkps i v vp e ep in let c := pnorm fo (pmv fo A v) in
-  c <> r0 -> pv (pbody fo A s) = v ->
-  pmv fo A v = map (fun x => c * x) v /\ peig (pbody fo A s) = c * pdot fo v v.
+  c <> r0 -> pv (pbody fo fl A s) = v ->
+  pmv fo A v = map (fun x => c * x) v /\ peig (pbody fo fl A s) = c * prq fo fl v v.
 Proof. cbn zeta. cbn [pbody pv peig]. set (p := pmv fo A v). set (c := pnorm fo p). intros Hc Hv.
   assert (Hp : p = map (fun x => c * x) v).
   { rewrite <- Hv at 1. rewrite map_map. rewrite <- (map_id p) at 1. apply map_ext. intros x. cbn [fo pdiv]. field. exact Hc. }
-  split; [exact Hp|]. rewrite Hp at 1. apply pdot_scale. Qed.
-(* ... so for a unit vector (v.v = 1) the returned value is the eigenvalue: A v = eig v *)
+  split; [exact Hp|]. rewrite Hp at 1. apply prq_scale. Qed.
+(* ... so for a unit vector (Rayleigh quotient of v with itself = 1) the returned value is the eigenvalue: A v = eig v *)
 Corollary power_fixed_point_unit (A : list (list R)) (v vp : list R) (i : nat) (e ep : R) :
   let s := mkps i v vp e ep in
-  pnorm fo (pmv fo A v) <> r0 -> pv (pbody fo A s) = v -> pdot fo v v = r1 ->
-  pmv fo A v = map (fun x => peig (pbody fo A s) * x) v.
+  pnorm fo (pmv fo A v) <> r0 -> pv (pbody fo fl A s) = v -> prq fo fl v v = r1 ->
+  pmv fo A v = map (fun x => peig (pbody fo fl A s) * x) v.
 Proof. cbn zeta. intros Hc Hv H1. destruct (power_fixed_point A v vp i e ep Hc Hv) as [Hp He].
   rewrite He, H1. rewrite Hp at 1. apply map_ext. intros x. ring. Qed.
 End Fixed.
